@@ -214,6 +214,11 @@ def gen_lens(ch, feats, nsurf=None, harsh=False, max_surf=12):
             rmin = ch.rounded(ch.uniform(0.0, 0.2) * epd, 3) \
                 if ch.chance(0.3) else 0
             op['aperture'] = [rmax, rmin]
+            prev = [o['aperture'] for o in ops if o.get('aperture')]
+            if prev and ch.chance(0.4):
+                # the same clear aperture as an earlier surface (both faces
+                # of one element), as a separate aperture object
+                op['aperture'] = list(prev[-1])
         if 'coat_simple' in feats and ch.chance(0.4):
             tr = ch.rounded(ch.uniform(0.5, 1.0), 3)
             op['coating'] = ['simple', tr,
